@@ -369,3 +369,30 @@ PROPS["C13"] = dict(
     rule="cases: every history of MC_Builder (Depth builder calls from ~40 enabled calls, into_sourcemap, MapDepth map calls from ~25) ; seeded histories of up to ~100 builder calls over pools of 15 sources / 7 roots / 7 names followed by up to ~30 map setter / saveload calls; distinct = distinct (call, position in history); non-trivial = any call other than set_file/set_debug_id",
     assumptions=COMMON_ASSUMPTIONS,
 )
+
+def _corrupt_c10(e):
+    t = e["out"]["toks"]
+    if t:
+        t[len(t) // 2][3] += 1
+    else:
+        t.append([0, 0, -1, 0, 0, -1, 0])
+    return True
+
+PROPS["C10"] = dict(
+    level="model_checking",
+    level_text="Adjust.tla states the composition declaratively (one token per non-empty overlap of an original stretch with an adjustment stretch, displaced and carrying the original payload) and transcribes the two-pointer sweep as a state machine; TLC checks the sweep against the declarative relation on every pair of small token lists over a grid (adjustment tokens with 4 displacements incl. multi-line) and enumerates the pairs, with and without duplicated positions. Every pair is composed by the real crate (tokens handed over in shuffled order) and the result is judged by TLC against the DECLARATIVE relation, so a wrong sweep condition in the code shows; seeded 50x50 grids with up to ~60 tokens a side.",
+    level_note="displacements are kept non-negative (negative results wrap in the crate and are outside the statement); the duplicate-position universe is enumerated without the sweep=declarative invariant, because the sweep as transcribed from the pinned code is exactly what violates the relation there (finding F11)",
+    technique="TLA+ declarative interval composition + sweep machine (Adjust.tla), TLC bounded model checking, trace validation of real adjust_mappings results against the declarative relation",
+    mc=[
+        dict(module="MC_Adjust", cfg="MC_Adjust_quick.cfg", tiers=("quick",), workers=8),
+        dict(module="MC_Adjust", cfg="MC_Adjust_dups_quick.cfg", tiers=("quick",), workers=8),
+        dict(module="MC_Adjust", cfg="MC_Adjust_thorough.cfg", tiers=("thorough",), workers=14, timeout=3400, heap="24g"),
+        dict(module="MC_Adjust", cfg="MC_Adjust_dups_thorough.cfg", tiers=("thorough",), workers=14, timeout=3400, heap="24g"),
+    ],
+    trace="Trace_C10",
+    drive=dict(quick=dict(n=1500, size=3), thorough=dict(n=30000, size=7)),
+    nontrivial=lambda e: len(e["args"]["orig"]) >= 1 and len(e["args"]["adj"]) >= 1,
+    corrupt=_corrupt_c10,
+    rule="cases: every (orig, adj) of MC_Adjust: <= MaxO original and <= MaxA adjustment tokens over Lines x Cols, adjustment displacements {(0,0),(0,2),(1,0),(1,1)}, without and with duplicated positions; seeded random pairs on grids up to 50x50 with up to ~56 tokens a side, a third of them with duplicated positions, tokens handed to the crate in shuffled order; distinct = distinct (orig, adj); non-trivial = both maps non-empty",
+    assumptions=COMMON_ASSUMPTIONS,
+)
